@@ -63,7 +63,7 @@ def cone(prop):
     every contracted function its functions call (their contracts are what the callers' proofs use)."""
     loader.load()
     items = []
-    direct = [q for q, ci in spec.CONTRACTS.items() if prop in ci.opts.get("props", [])]
+    direct = [q for q, ci in spec.CONTRACTS.items() if prop in ci.opts.get("props", []) and "#" not in q]
     seen = list(direct)
     work = list(direct)
     while work:
@@ -421,7 +421,24 @@ def run_selftest(tier, seed):
             ok = True
         print(f"selftest {name}: {'not provable (good)' if ok else 'PROVED A FALSE LEMMA'}")
         bad += 0 if ok else 1
-    print(f"selftest: {n} false lemmas, {bad} wrongly proved")
+    # deliberately false CONTRACTS on real functions ("qualname#tag"): some obligation must stay open
+    for q, ci in spec.CONTRACTS.items():
+        if ci.opts.get("expect") != "fail":
+            continue
+        n += 1
+        try:
+            repo, ctx, eng, pre, cp, npaths = prove.gen_contract_vcs(q)
+            from pyvc import smt as _smt
+            open_ = 0
+            for ob in ctx.obligations:
+                r = _smt.solve(prove.query_text(ctx, ob), 10, alts=[("slim", prove.query_text(ctx, ob, slim=True))])
+                open_ += r["result"] != "unsat"
+            ok = open_ > 0
+        except (prove.Demoted, prove.Unsupported):
+            ok = True
+        print(f"selftest {q}: {'not provable (good)' if ok else 'PROVED A FALSE CONTRACT'}")
+        bad += 0 if ok else 1
+    print(f"selftest: {n} false lemmas/contracts, {bad} wrongly proved")
     return 3 if bad or not n else 0
 
 
